@@ -195,13 +195,8 @@ class C18(Check):
                         kw2["patch_centers"] = cats.coords_obj(np.array([[np.deg2rad(5.0), 0.0], [np.deg2rad(15.0), 0.0], [np.deg2rad(25.0), 0.0]]))
                     Catalog.from_random(tmp / "cat", g, n, **kw2)
                 else:
-                    orig_new = ycat.new_filereader
-
-                    def recording_new(*a, **k):
-                        return sources.instrument_reader(orig_new(*a, **k), log)
-
-                    ycat.new_filereader = recording_new
-                    Catalog.from_file(tmp / "cat", src_path, **names, **kw)
+                    with sources.instrumented_opens(log):
+                        Catalog.from_file(tmp / "cat", src_path, **names, **kw)
                 os.environ["YAW_NUM_THREADS"] = "1"
                 return dict(events=log.events, handed=handed)
 
